@@ -39,7 +39,11 @@ def check(case: dict):
     from maze_dataset import MazeDataset, MazeDatasetCollection, MazeDatasetCollectionConfig, MazeDatasetConfig
 
     lens, grids, route = case["lens"], case["grids"], case.get("route", "hand")
-    cfgs = [MazeDatasetConfig(name=f"m{j}", grid_n=grids[j], n_mazes=lens[j], seed=100 + j) for j in range(len(lens))]
+    names = case.get("names") or list(range(len(lens)))  # members may share a config name (names are free-form labels)
+    declared = case.get("declared") or lens  # n_mazes written in a member's config may differ from the mazes it holds (as after a filter / split)
+    if route == "generate":
+        names, declared = list(range(len(lens))), lens
+    cfgs = [MazeDatasetConfig(name=f"m{names[j]}", grid_n=grids[j], n_mazes=declared[j], seed=100 + j) for j in range(len(lens))]
     ccfg = MazeDatasetCollectionConfig(name="col", maze_dataset_configs=cfgs)
     if route == "generate":
         col = call("C16:generate", MazeDatasetCollection.generate, ccfg)
@@ -61,10 +65,20 @@ def check(case: dict):
     require(len(mz) == total and all(a is b for a, b in zip(mz, concat)), "C16:flattened-list", f"lens={lens}: flattened list differs from the concatenation")
     dl = call("C16:dataset_lengths", lambda: list(col.dataset_lengths))
     require(dl == list(lens), "C16:dataset_lengths", f"{dl} vs {lens}")
+    if list(declared) != list(lens):
+        # the reported maze count is brought up to date by update_self_config (what every filter / from_config does)
+        call("C16:update_self_config", col.update_self_config)
     nm = call("C16:cfg.n_mazes", lambda: col.cfg.n_mazes)
     require(nm == total == len(mz) == sum(dl), "C16:counts-disagree", f"cfg.n_mazes={nm} len(mazes)={len(mz)} sum(lengths)={sum(dl)} len={total}")
+    if list(declared) != list(lens):
+        n2 = call("C16:len", len, col)
+        require(n2 == total, "C16:len", f"after update_self_config len(collection)={n2}, members {lens}")
     nonempty = sum(1 for x in lens if x > 0)
     labels = [route]
+    if len(set(names)) < len(names):
+        labels.append("shared-member-name")
+    if list(declared) != list(lens):
+        labels.append("stale-declared-count")
     if lens and lens[0] == 0:
         labels.append("zero-first")
     if lens and lens[-1] == 0:
@@ -176,7 +190,13 @@ def _random(draw, maxm, maxlen):
             j = draw(st.integers(0, n - 2))
             lens[j] = lens[j + 1] = 0
     grids = [draw(st.integers(2, 5)) for _ in range(n)]
-    return {"lens": lens, "grids": grids, "route": draw(st.sampled_from(["hand", "hand", "generate"]))}
+    case = {"lens": lens, "grids": grids, "route": draw(st.sampled_from(["hand", "hand", "generate"]))}
+    if case["route"] == "hand":
+        if draw(st.booleans()):
+            case["names"] = [draw(st.integers(0, max(0, n // 2))) for _ in range(n)]
+        if draw(st.booleans()):
+            case["declared"] = [draw(st.sampled_from([x, x, x + 1, x + 3, max(0, x - 1), 0])) for x in lens]
+    return case
 
 
 def subs(tier: str):
